@@ -6,7 +6,8 @@ def numerics(ctx):
     cap = 60 if ctx.quick else 300
     J = []
     cfgs = [dict(R=4, C=4, sym_mask=5, marge=1), dict(R=3, C=5, sym_mask=5, marge=0, seed=1), dict(R=4, C=4, sym_mask=4, marge=2, user='grid', seed=2),
-            dict(R=5, C=5, ws=5, sym_mask=4, marge=1, seed=3), dict(R=4, C=3, sf=3, sym_mask=4, marge=1, dmin=-2, dmax=2, seed=4)]
+            dict(R=5, C=5, ws=5, sym_mask=4, marge=1, seed=3), dict(R=4, C=3, sf=3, sym_mask=4, marge=1, dmin=-2, dmax=2, seed=4),
+            dict(R=3, C=4, sym_mask=3, marge=4, dmin=-2, dmax=2, seed=5)]      # a marge wider than the user interval of the next level
     if not ctx.quick:
         cfgs += [dict(R=5, C=5, sym_mask=8, marge=1, seed=5), dict(R=4, C=6, sym_mask=8, marge=3, seed=6, user='grid'),
                  dict(R=6, C=6, ws=5, sym_mask=6, marge=1, seed=7), dict(R=4, C=4, sf=4, sym_mask=5, marge=1, seed=8), dict(R=3, C=3, ws=1, sym_mask=6, marge=0, seed=9)]
